@@ -152,16 +152,18 @@ def explode(cfg, trace):
                 cands = polls.get((e, a), [])
                 explained = any(int(p[5]) & EV_BITS[kind] for p in cands)
                 if btype == "frame" and explained:
-                    facts.append(("dk", f"{e} {a} {kind}"))
+                    sk = (int(e), int(a), t[4], t[5])
+                    facts.append(("dk", f"{e} {a} {kind}", sk))
                     ok_sv = any(p[4] == t[4] and p[6] == t[5] for p in cands)
                     ok_d = any((t[6] == "-" or p[7] == t[6]) and (t[7] == "-" or p[8] == t[7]) for p in cands)
                     shape = ("-" if t[6] == "-" else "e") + ("-" if t[7] == "-" else "f")
-                    facts.append(("dpc", f"{e} {a} {kind} payload={'ok' if ok_sv else 'differs'} shape={shape}"))
-                    facts.append(("dpd", f"{e} {a} {kind} durations={'ok' if ok_d else 'differ'}"))
+                    facts.append(("dpc", f"{e} {a} {kind} payload={'ok' if ok_sv else 'differs'} shape={shape}", sk))
+                    facts.append(("dpd", f"{e} {a} {kind} durations={'ok' if ok_d else 'differ'}", sk))
                 else:
-                    facts.append(("ck", f"{e} {a} {kind}"))                 # closing delivery (instance gone / rebuilt)
-                    facts.append(("cp", f"{e} {a} {kind} {t[4]} {t[5]}"))  # ... with state and value
-                    facts.append(("cd", f"{e} {a} {kind} {t[6]} {t[7]}"))  # ... and durations
+                    sk = (int(e), int(a), t[4], t[5])
+                    facts.append(("ck", f"{e} {a} {kind}", sk))                 # closing delivery (instance gone / rebuilt)
+                    facts.append(("cp", f"{e} {a} {kind} {t[4]} {t[5]}", sk))  # ... with state and value
+                    facts.append(("cd", f"{e} {a} {kind} {t[6]} {t[7]}", sk))  # ... and durations
             elif k == "poll":
                 key = " ".join(t[1:4])
                 facts.append(("pp", key))                                    # the lookup succeeds
@@ -205,7 +207,7 @@ def explode(cfg, trace):
             facts[pos:pos] = [("evb", f"{c} {a} {n}") for (c, a), n in sorted(evb.items(), key=lambda kv: (str(kv[0]), kv[1]))]
             # evaluation order of context types as witnessed by the invocation log
             order = []
-            for kind, text in facts:
+            for kind, text, *_ in facts:
                 if kind.startswith("ix:"):
                     c = cfg.ctx.get(int(text))
                     if c is not None and (not order or order[-1] != c):
@@ -213,7 +215,7 @@ def explode(cfg, trace):
             facts.append(("evalorder", " ".join(map(str, order))))
             # recipients of every delivered (action, kind)
             rc = {}
-            for kind, text in facts:
+            for kind, text, *_ in facts:
                 if kind in ("dk", "ck"):
                     e, a, kd = text.split(" ")
                     rc.setdefault((a, kd), []).append(e)
@@ -261,8 +263,7 @@ CLASS = {
     "C03": dict(mode="block", cls=_cls({**SCRIPT, "ix": "up", "raw": "up", "ivi": "up", "ivo": "up", "pv": "up", "ps": "out", "sup": "out",
                                         "panic": "up"})),
     # value: input-level results in, merged / action-level values out
-    "C04": dict(mode="seq", cls=_cls({**SCRIPT, "raw": "up", "ix": "up", "ivi": "out", "ivo:i:*": "up", "ivo:e:*": "up", "ivo:a:*": "out",
-                                      "pv": "out", "pvd": "out", "panic": "out"})),
+    "C04": dict(mode="seq", cls=_cls({**SCRIPT, "raw": "up", "ix": "up", "ivi": "out", "ivo": "up", "pv": "out", "pvd": "out", "panic": "out"})),
     # consumption: what later actions read
     "C05": dict(mode="seq", cls=_cls({**SCRIPT, "invorder": "up", "raw": "out", "panic": "up"})),
     # priority order of the registry / of evaluation
@@ -332,10 +333,12 @@ def sort_block(prop, cfg, facts, keep_log=False):
                 return (r, ())
             return (r, inv_key(cfg, int(text.split(" ")[0])))
         if r == 2:
+            if len(f) > 3 and f[3] is not None:
+                return (r, f[3])          # deliveries of one (entity, action) with one payload stay together, in their order
             e, a = text.split(" ")[:2]
-            return (r, (int(e), int(a)))
+            return (r, (int(e), int(a), "", ""))
         return (r, ())
-    return sorted(facts, key=key)
+    return [f[:3] for f in sorted(facts, key=key)]
 
 
 def view(prop, cfg, trace):
@@ -343,7 +346,7 @@ def view(prop, cfg, trace):
     cls = CLASS[prop]["cls"]
     out = []
     for btype, facts in explode(cfg, trace):
-        tagged = [(cls(k), k, x) for k, x in facts]
+        tagged = [(cls(f[0]), f[0], f[1], f[2] if len(f) > 2 else None) for f in facts]
         out.append(sort_block(prop, cfg, [f for f in tagged if f[0] is not None]))
     return out
 
@@ -370,14 +373,15 @@ def strict_view(prop, cfg, trace):
     out = []
     for btype, facts in explode(cfg, trace):
         tagged = []
-        for k, x in facts:
+        for f in facts:
+            k, x = f[0], f[1]
             c = cls(k)
             if c != "out":
                 if k in STRICT_DROP:
                     continue            # derived facts: their sources are in the list already
                 c = "up"
-            tagged.append((c, k, x))
-        blk = sort_block(prop, cfg, tagged, keep_log=True)
+            tagged.append((c, k, x, f[2] if len(f) > 2 else None))
+        blk = sort_block(prop, cfg, tagged, keep_log=prop not in ("C12", "C13"))
         blk.sort(key=lambda f: STRICT_RANK.get(f[1], rank(f[1])))
         out.append(blk)
     return out
